@@ -215,3 +215,20 @@ PROPERTIES["C20"] = {
         {"test": "TestC20Paths", "quick": 1500, "thorough": 100000},
     ],
 }
+
+PROPERTIES["C16"] = {
+    "level": "exploration",
+    "rule": "rapid draws packet denoms from the grammar hop* base (hop in {the packet's own port/channel, other channels/ports, junk}, base in "
+            "{Noble-native denoms incl. one with slashes, one that looks like a trace prefix, an ibc/<hash> voucher, foreign and malformed ones}) "
+            "x source port/channel pairs (own, other channel, other port, the Noble-side id) x amount spellings ICS-20 accepts or refuses. "
+            "Differential: the same packet with a neutral receiver goes through the harness-built stack WITHOUT the orbiter middleware, which "
+            "shows what ICS-20 does (error / release of coin (D,A) from escrow / mint of a voucher); the orbiter run may succeed only when ICS-20 "
+            "released from escrow and D is the packet denom minus the single own prefix, and then recipient delta, escrow delta and recorded "
+            "statistics must be exactly (D,A). Unit test: RecoverNativeDenom vs the transfer module's ReceiverChainIsSource/ParseDenomTrace. "
+            "Non-trivial = a denom with >= 1 hop; distinct by (denom, port, channel).",
+    "assumptions": COMMON_ASSUMPTIONS,
+    "tests": [
+        {"test": "TestC16Differential", "quick": 5000, "thorough": 500000},
+        {"test": "TestC16Unit", "quick": 30000, "thorough": 1000000},
+    ],
+}
